@@ -297,6 +297,46 @@ class strict_validation:
         config.settings._writing_validation_mode, config.settings._reading_validation_mode = self.old
 
 
+def required_attributes(ds):
+    """Type 1 / type 2 attributes of the mandatory modules of the object's IOD, as far as the attribute table of the shim
+    (harness/hd_env.py, a reduced hand-made table: presence / type only) knows them: a type 1 attribute must be there with a
+    value, a type 2 attribute must be there.  Attributes below a sequence are demanded in every item of that sequence when the
+    sequence is there.  Conditional (1C / 2C) and optional attributes are not looked at.  -> (first shortcoming | None, #checked)"""
+    import sys
+    try:
+        from highdicom import _iods
+        table = sys.modules['highdicom._modules'].MODULE_ATTRIBUTE_MAP
+        iod = _iods.SOP_CLASS_UID_IOD_KEY_MAP[str(ds.SOPClassUID)]
+        modules = [m['key'] for m in _iods.IOD_MODULE_MAP[iod] if m.get('usage') == 'M']
+    except Exception:  # noqa: BLE001
+        return None, 0
+    checked = 0
+
+    def holders(d, path):
+        if not path:
+            return [d]
+        seq = d.get(path[0])
+        if seq is None:
+            return []
+        out = []
+        for it in seq:
+            out += holders(it, path[1:])
+        return out
+    for mod in modules:
+        for a in table.get(mod, []):
+            if a['type'] not in ('1', '2'):
+                continue
+            for h in holders(ds, a['path']):
+                checked += 1
+                if a['keyword'] not in h:
+                    return f"type {a['type']} attribute {'/'.join(a['path'] + [a['keyword']])} of module {mod} ({iod}) is missing", checked
+                if a['type'] == '1':
+                    v = h[a['keyword']].value
+                    if v is None or (hasattr(v, '__len__') and len(v) == 0):
+                        return f"type 1 attribute {'/'.join(a['path'] + [a['keyword']])} of module {mod} ({iod}) is empty", checked
+    return None, checked
+
+
 def file_clause(obj):
     """Returns (failure text or None, bytes).  The write / read-back / identifier clauses of the property."""
     import pydicom
@@ -329,6 +369,16 @@ def file_clause(obj):
     for v, kw in itertools.chain(uid_values(back).items(), uid_values(back.file_meta).items()):
         if len(v) > 64 or not UID_RE.match(v):
             return f'invalid UID in {kw}: {v!r}', blob
+    # file meta information is consistent with the data set and the encoding actually used
+    ts = back.file_meta.get('TransferSyntaxUID')
+    if ts is None:
+        return 'file meta has no TransferSyntaxUID', blob
+    if hasattr(obj, 'PixelData') and ts.is_compressed != (blob.find(b'\xfe\xff\x00\xe0') >= 0 and obj['PixelData'].is_undefined_length):
+        return f'TransferSyntaxUID {ts} does not match the encoding of PixelData (encapsulated: {obj["PixelData"].is_undefined_length})', blob
+    missing, n = required_attributes(back)
+    file_clause.last_required = n
+    if missing:
+        return 'written file lacks a required attribute: ' + missing, blob
     return None, blob
 
 
@@ -832,6 +882,8 @@ def _run_subject_strict(ctx, idx, s, case, collect):
         msg, blob = file_clause(obj)
         if msg:
             ctx.fail(case, msg, site=s['name'] + '/file')
+        n_req = getattr(file_clause, 'last_required', 0)
+        ctx.hist('required_attributes_checked', '0' if n_req == 0 else ('1-20' if n_req <= 20 else ('21-60' if n_req <= 60 else '>60')))
         # 3. identifiers generated by the library are unique per call (same arguments, second call)
         if idx % 3 == 0:
             try:
